@@ -15,7 +15,7 @@ RULE = ("(a) every statistic (14) on every shape of its dimensionality in a grid
         "shapes of the wrong dimensionality (error expected): `sfs stat --precision 15` vs the model within 1e-9 relative "
         "(D statistics: model numerator / sqrt(model radicand)); (b) end to end: random call sets without missing data -> "
         "`sfs create` -> `sfs stat`, vs the definitions computed directly from the genotypes by enumerating chromosome "
-        "pairs / allele frequencies / genotype pairs. non-trivial = statistic defined and non-zero; the same integer spectrum as text and as npy of all 18 element types / byte orders must print the same statistic; and as text without a final line feed, with CR LF, tabs, one value per line, trailing blank lines")
+        "pairs / allele frequencies / genotype pairs. non-trivial = statistic defined and non-zero; the same integer spectrum as text and as npy of all 18 element types / byte orders must print the same statistic; and as text without a final line feed, with CR LF, tabs, one value per line, trailing blank lines; fractional (dyadic) spectra with fewer than one segregating site")
 
 
 def shapes_for(stat, tier, rng):
@@ -103,7 +103,18 @@ def check(rep, tier, seed):
                 for n in sh:
                     E *= n
                 cases.append((st, sh, [rng.randrange(1, 9) for _ in range(E)]))
-    mo = run_model(["stat %s %s %s" % (st, fmt(sh), fmt(data)) for st, sh, data in cases])
+    # fractional spectra (what projection produces), small enough that fewer than one segregating site is left (0 < S < 1):
+    # dyadic values, exact in f64 and in the model
+    class Dy(Fraction):
+        def __str__(self):
+            return repr(float(self))
+    for st in ("d-tajima", "d-fu-li", "pi", "theta", "s"):
+        for sh in ([5], [8], [4], [12]):
+            for top in (64, 1024):
+                data = [Dy(rng.randrange(1, 200), 1)] + [Dy(rng.randrange(0, 7), top * (sh[0] - 1)) for _ in range(sh[0] - 2)] + [Dy(rng.randrange(0, 3), 1)]
+                cases.append((st, sh, data))
+    mt = lambda x: ("%d/%d" % (x.numerator, x.denominator)) if isinstance(x, Fraction) else str(x)
+    mo = run_model(["stat %s %s %s" % (st, fmt(sh), fmt([mt(x) for x in data])) for st, sh, data in cases])
     res = run_stats(cases)
     for (st, sh, data), m, (rc, v, se, so) in zip(cases, mo, res):
         mv = model_value(m)
